@@ -293,7 +293,7 @@ class Watched:
         return None
 
 
-def replay_verdict(binp, path, times=3):
+def replay_verdict(binp, path, times=3, need=None):
     """Replays a saved case `times` times (concurrently) with the plain replay engine.  Returns (reproduces every time, text)."""
     env = dict(os.environ)
     env["ASAN_OPTIONS"] = ASAN_ENV
@@ -315,7 +315,7 @@ def replay_verdict(binp, path, times=3):
         if rc != 0:
             n_bad += 1
             text = out
-    return n_bad == times, text
+    return n_bad >= (times if need is None else need), text
 
 
 def signature(text):
@@ -530,7 +530,13 @@ def check(pid, tier):
             continue
         seen.add(digest)
         n_replayed += 1
-        ok, text = replay_verdict(bins[v]["prop"], path)
+        if spec.get("tsan"):
+            # thread programs: whether a saved case shows its failure again depends on the schedule, so it is replayed 12 times (each replay
+            # repeats the case 4 times in one process) and counts when the failure is seen again at least once - the original observation
+            # plus an independent second one; a sanitizer report or digest mismatch never occurs by chance on a tree without the defect
+            ok, text = replay_verdict(bins[v]["prop"], path, times=12, need=1)
+        else:
+            ok, text = replay_verdict(bins[v]["prop"], path)
         if ok:
             if path.endswith(".hang"):
                 hang_confirmed = True
@@ -539,7 +545,7 @@ def check(pid, tier):
                 continue
             sigs.add(sig)
         if not ok:
-            notes.append("candidate from %s did not reproduce 3x under replay; not reported" % how)
+            notes.append("candidate from %s did not reproduce under replay (%s); not reported" % (how, "0 of 12" if spec.get("tsan") else "3 of 3 required"))
             continue
         k = match_known(pid, text)
         if k:
